@@ -80,73 +80,80 @@ pub fn coerce<'x>(a: &'x Value, b: &'x Value, lossy: bool) -> Option<CoerceResul
     }
 }
 
-fn get_offset_and_len<F: FnOnce() -> usize>(
-    start: Option<i64>,
-    stop: Option<i64>,
-    end: F,
-) -> (usize, usize) {
-    let start = start.unwrap_or(0);
-    if start < 0 || stop.map_or(true, |x| x < 0) {
-        let end = end();
-        let start = if start < 0 {
-            std::cmp::max(0, end as i64 + start) as usize
-        } else {
-            start as usize
-        };
-        let stop = match stop {
-            None => end,
-            Some(x) if x < 0 => std::cmp::max(0, end as i64 + x) as usize,
-            Some(x) => x as usize,
-        };
-        (start, stop.saturating_sub(start))
-    } else {
-        (
-            start as usize,
-            (stop.unwrap() as usize).saturating_sub(start as usize),
-        )
+/// Converts a slice bound into an `i64`.
+///
+/// Integers outside the `i64` range are clamped: no container is that large,
+/// so such a bound behaves exactly like the nearest representable one.
+fn slice_bound(value: Value) -> Result<i64, Error> {
+    match i128::try_from(value.clone()) {
+        Ok(val) => Ok(val.clamp(i64::MIN as i128, i64::MAX as i128) as i64),
+        Err(_) if u128::try_from(value.clone()).is_ok() => Ok(i64::MAX),
+        Err(_) => i64::try_from(value),
     }
 }
 
-fn range_step_backwards(
-    start: Option<i64>,
-    stop: Option<i64>,
-    step: usize,
-    end: usize,
-) -> impl Iterator<Item = usize> {
-    let start = match start {
-        None => end.saturating_sub(1),
-        Some(start) if start >= end as i64 => end.saturating_sub(1),
-        Some(start) if start >= 0 => start as usize,
-        Some(start) => (end as i64 + start).max(0) as usize,
+/// Resolves the bounds of a slice against a container of `len` items the way
+/// Python does.  Returns the index of the first selected item and the number
+/// of selected items; item `n` of the result is `first + n * step`.
+fn slice_indices(start: Option<i64>, stop: Option<i64>, step: i64, len: usize) -> (usize, usize) {
+    // every `usize` and `i64` fits into an `i128` with room to spare, so
+    // none of the operations below can overflow.
+    let len = len as i128;
+    let step = step as i128;
+    let (lower, upper) = if step < 0 { (-1, len - 1) } else { (0, len) };
+    let adjust = |bound: Option<i64>, default: i128| match bound {
+        None => default,
+        Some(bound) if bound < 0 => (bound as i128 + len).max(lower),
+        Some(bound) => (bound as i128).min(upper),
     };
-    let stop = match stop {
-        None => 0,
-        Some(stop) if stop < 0 => (end as i64 + stop).max(0) as usize,
-        Some(stop) => stop as usize,
-    };
-    let length = if stop == 0 {
-        (start + step) / step
+    let (start, stop) = if step < 0 {
+        (adjust(start, upper), adjust(stop, lower))
     } else {
-        (start - stop + step - 1) / step
+        (adjust(start, lower), adjust(stop, upper))
     };
-    (stop..=start).rev().step_by(step).take(length)
+    let count = if step < 0 && stop < start {
+        (start - stop - 1) / -step + 1
+    } else if step > 0 && start < stop {
+        (stop - start - 1) / step + 1
+    } else {
+        0
+    };
+    (start.max(0) as usize, count as usize)
+}
+
+/// Returns the items of `items` a slice selects.
+fn slice_vec<T: Clone>(items: Vec<T>, start: Option<i64>, stop: Option<i64>, step: i64) -> Vec<T> {
+    let (first, count) = slice_indices(start, stop, step, items.len());
+    let stride = usize::try_from(step.unsigned_abs()).unwrap_or(usize::MAX);
+    if step > 0 {
+        items
+            .into_iter()
+            .skip(first)
+            .step_by(stride)
+            .take(count)
+            .collect()
+    } else {
+        (0..count)
+            .map(|n| items[first - n * stride].clone())
+            .collect()
+    }
 }
 
 pub fn slice(value: Value, start: Value, stop: Value, step: Value) -> Result<Value, Error> {
     let start = if start.is_none() {
         None
     } else {
-        Some(ok!(start.try_into()))
+        Some(ok!(slice_bound(start)))
     };
     let stop = if stop.is_none() {
         None
     } else {
-        Some(ok!(i64::try_from(stop)))
+        Some(ok!(slice_bound(stop)))
     };
     let step = if step.is_none() {
         1i64
     } else {
-        ok!(i64::try_from(step))
+        ok!(slice_bound(step))
     };
     if step == 0 {
         return Err(Error::new(
@@ -164,44 +171,14 @@ pub fn slice(value: Value, start: Value, stop: Value, step: Value) -> Result<Val
 
     match value.0 {
         ValueRepr::String(..) | ValueRepr::SmallStr(_) => {
-            let s = value.as_str().unwrap();
-            if step > 0 {
-                let (start, len) = get_offset_and_len(start, stop, || s.chars().count());
-                Ok(Value::from(
-                    s.chars()
-                        .skip(start)
-                        .take(len)
-                        .step_by(step as usize)
-                        .collect::<String>(),
-                ))
-            } else {
-                let chars: Vec<char> = s.chars().collect();
-                Ok(Value::from(
-                    range_step_backwards(start, stop, -step as usize, chars.len())
-                        .map(move |i| chars[i])
-                        .collect::<String>(),
-                ))
-            }
+            let chars: Vec<char> = value.as_str().unwrap().chars().collect();
+            Ok(Value::from(
+                slice_vec(chars, start, stop, step)
+                    .into_iter()
+                    .collect::<String>(),
+            ))
         }
-        ValueRepr::Bytes(ref b) => {
-            if step > 0 {
-                let (start, len) = get_offset_and_len(start, stop, || b.len());
-                Ok(Value::from_bytes(
-                    b.iter()
-                        .skip(start)
-                        .take(len)
-                        .step_by(step as usize)
-                        .copied()
-                        .collect(),
-                ))
-            } else {
-                Ok(Value::from_bytes(
-                    range_step_backwards(start, stop, -step as usize, b.len())
-                        .map(|i| b[i])
-                        .collect::<Vec<u8>>(),
-                ))
-            }
-        }
+        ValueRepr::Bytes(ref b) => Ok(Value::from_bytes(slice_vec(b.to_vec(), start, stop, step))),
         ValueRepr::Undefined(_) | ValueRepr::None => Ok(Value::from(Vec::<Value>::new())),
         ValueRepr::Object(obj) if matches!(obj.repr(), ObjectRepr::Seq | ObjectRepr::Iterable) => {
             if is_tuple {
@@ -209,45 +186,33 @@ pub fn slice(value: Value, start: Value, stop: Value, step: Value) -> Result<Val
                     .try_iter()
                     .map(|iter| iter.collect::<Vec<_>>())
                     .unwrap_or_default();
-                let values: Vec<Value> = if step > 0 {
-                    let (start, len) = get_offset_and_len(start, stop, || values.len());
-                    values
-                        .into_iter()
-                        .skip(start)
-                        .take(len)
-                        .step_by(step as usize)
-                        .collect()
-                } else {
-                    range_step_backwards(start, stop, -step as usize, values.len())
-                        .map(|idx| values[idx].clone())
-                        .collect()
-                };
-                return Ok(Value::from(Tuple::from(values)));
+                return Ok(Value::from(Tuple::from(slice_vec(
+                    values, start, stop, step,
+                ))));
             }
 
-            if step > 0 {
-                let len = obj.enumerator_len().unwrap_or_default();
-                let (start, len) = get_offset_and_len(start, stop, || len);
-                Ok(Value::make_object_iterable(obj, move |obj| {
-                    if let Some(iter) = obj.try_iter() {
-                        Box::new(iter.skip(start).take(len).step_by(step as usize))
-                    } else {
-                        Box::new(None.into_iter())
-                    }
-                }))
+            // Forward slices of objects that know their length stay lazy, as
+            // do forward slices that do not need the length at all.
+            let known_len = if step < 0 {
+                None
+            } else if start.map_or(true, |x| x >= 0) && stop.map_or(false, |x| x >= 0) {
+                Some(usize::MAX)
             } else {
-                Ok(Value::make_object_iterable(obj.clone(), move |obj| {
-                    if let Some(iter) = obj.try_iter() {
-                        let vec: Vec<Value> = iter.collect();
-                        Box::new(
-                            range_step_backwards(start, stop, -step as usize, vec.len())
-                                .map(move |i| vec[i].clone()),
-                        )
-                    } else {
-                        Box::new(None.into_iter())
-                    }
-                }))
-            }
+                obj.enumerator_len()
+            };
+            Ok(Value::make_object_iterable(obj, move |obj| {
+                let iter = match obj.try_iter() {
+                    Some(iter) => iter,
+                    None => return Box::new(None.into_iter()),
+                };
+                if let Some(len) = known_len {
+                    let (first, count) = slice_indices(start, stop, step, len);
+                    let stride = usize::try_from(step.unsigned_abs()).unwrap_or(usize::MAX);
+                    Box::new(iter.skip(first).step_by(stride).take(count))
+                } else {
+                    Box::new(slice_vec(iter.collect(), start, stop, step).into_iter())
+                }
+            }))
         }
         _ => error,
     }
